@@ -4,8 +4,10 @@ package verifc06
 
 import (
 	"bytes"
+	"encoding/json"
 	"fmt"
-	"sync"
+	"os"
+	"path/filepath"
 
 	"github.com/cloudflare/circl/internal/verifmc"
 	"github.com/cloudflare/circl/internal/verifref/xladder"
@@ -36,45 +38,32 @@ func ExpectedBackend(config string) string {
 // when the configuration did not switch to the back-end it stands for.
 func CheckBackend(r *verifmc.Run, backend string) {
 	r.Set("backend", backend)
-	r.Set("backend_"+r.Config(), backend)
+	// The evidence file keeps the extra fields of one configuration per unit;
+	// merge what the earlier configurations of this run recorded so that the
+	// last one lists the back-end selected under every configuration.
+	by := map[string]string{r.Config(): backend}
+	if out := os.Getenv("VERIF_OUT"); out != "" {
+		files, _ := filepath.Glob(filepath.Join(out, fmt.Sprintf("%s.%s.*.json", r.Prop, r.Unit)))
+		for _, f := range files {
+			var u struct {
+				Config string
+				Extra  struct{ Backend string }
+			}
+			if b, err := os.ReadFile(f); err == nil && json.Unmarshal(b, &u) == nil && u.Config != "" && u.Extra.Backend != "" {
+				if _, mine := by[u.Config]; !mine {
+					by[u.Config] = u.Extra.Backend
+				}
+			}
+		}
+	}
+	r.Set("backends_by_config", by)
 	r.Outcome("backend=" + backend)
 	if want := ExpectedBackend(r.Config()); want != backend {
 		r.Vacuous(fmt.Sprintf("config %s selected back-end %s, expected %s", r.Config(), backend, want))
 	}
 }
 
-// memo caches the reference: RFC 7748's function depends on the byte strings
-// only through decodeScalar(k) and decodeUCoordinate(u) mod p.
-type memo struct {
-	c  *xladder.Curve
-	mu sync.Mutex
-	m  map[string][]byte
-	n  int
-}
-
-func newMemo(c *xladder.Curve) *memo { return &memo{c: c, m: map[string][]byte{}} }
-
-func (m *memo) X(k, u []byte) []byte {
-	ks := m.c.DecodeScalar(k)
-	us := m.c.DecodeU(u)
-	us.Mod(us, m.c.P)
-	key := ks.Text(62) + "/" + us.Text(62)
-	m.mu.Lock()
-	v, ok := m.m[key]
-	m.mu.Unlock()
-	if ok {
-		return v
-	}
-	v = m.c.X(k, u)
-	m.mu.Lock()
-	if _, dup := m.m[key]; !dup {
-		m.m[key] = v
-		m.n++
-	}
-	m.mu.Unlock()
-	return v
-}
-
+// memo is the reference oracle with memoisation.
 type pair struct {
 	k, u Named
 	id   string
@@ -244,27 +233,35 @@ func RunShared(r *verifmc.Run, im *Impl) {
 	kLimbs := pp.ScalarsLimbs(th)
 	ps := pairSet{unit: "shared"}
 	ps.product(kCore, uCore)
+	uNC := pp.PeersNonCanonicalBits()
 	ps.product(kSmall, uBits)
-	ps.product(kSmall, uLimbs)
-	ps.product(kBits, uSmall)
-	ps.product(kLimbs, uSmall)
+	ps.product(kSmall, uNC)
 	var kClamp []Named
 	if th {
-		kClamp = pp.ScalarsClampSpace()
+		// the limb-structured alphabets are large in this tier: two scalars resp. three peers
+		ps.product(kSmall[:2], uLimbs)
+		ps.product(kBits, uSmall)
+		ps.product(kLimbs, uSmall[:3])
+		kClamp = pp.ScalarsClampSpace(true)
 		ps.product(kClamp, uSmall[:2])
+	} else {
+		ps.product(kSmall, uLimbs)
+		uSmall = uSmall[:3]
+		ps.product(kBits, uSmall)
+		ps.product(kLimbs, uSmall)
 	}
 	r.Set("alphabet", map[string]interface{}{
 		"k_core": names(kCore, 100), "u_core": names(uCore, 400),
 		"k_small": names(kSmall, 10), "u_small": names(uSmall, 10),
-		"k_bits": len(kBits), "u_bits": len(uBits), "k_limbs": len(kLimbs), "u_limbs": len(uLimbs), "k_clamp_space": len(kClamp),
+		"k_bits": len(kBits), "u_bits": len(uBits), "k_limbs": len(kLimbs), "u_limbs": len(uLimbs), "u_noncanonical_bits": len(uNC), "k_clamp_space": len(kClamp),
 	})
 	peerL, scL := pp.LimbAlphabets(th)
 	r.Set("limb_alphabets", map[string]interface{}{"peer": fmt.Sprintf("%x", peerL), "scalar": fmt.Sprintf("%x", scL)})
-	r.Rule("distinct (scalar bytes, peer bytes) pairs of (k_core x u_core) U (k_small x (u_bits U u_limbs)) U ((k_bits U k_limbs [U clamp space in thorough]) x u_small); " +
+	r.Rule("distinct (scalar bytes, peer bytes) pairs of (k_core x u_core) U (k_small x (u_bits U u_limbs U u_noncanonical_bits)) U ((k_bits U k_limbs [U clamp space in thorough]) x u_small); " +
 		"each pair runs the real Shared once and is compared with the RFC 7748 big.Int ladder (value) and with output==0 (flag)")
-	m := newMemo(pp.C)
+	m := newMemo(pp.C, r)
 	runPairs(r, im, m, ps.pairs)
-	r.Count("reference_evaluations", m.n)
+	m.finish(r)
 	if pp.C.Bits == 448 {
 		r.NotExhaustive("X448 non-canonical range p..2^448-1 has 2^224+1 values; its two ends (32 each) and all single-bit offsets are enumerated, not the range")
 	}
@@ -287,14 +284,16 @@ func RunKeyGen(r *verifmc.Run, im *Impl) {
 	defer globalsGuard(r, im)()
 	pp := im.P
 	var s set
-	for _, l := range [][]Named{pp.ScalarsCore(r.Seed()), pp.ScalarsBits(), pp.ScalarsLimbs(r.Thorough()), pp.ScalarsClampSpace()} {
+	fullClamp := r.Thorough() || pp.C.Bits == 255
+	kClamp := pp.ScalarsClampSpace(fullClamp)
+	for _, l := range [][]Named{pp.ScalarsCore(r.Seed()), pp.ScalarsBits(), pp.ScalarsLimbs(r.Thorough()), kClamp} {
 		for _, n := range l {
 			s.add(n.Name, n.B)
 		}
 	}
 	ks := s.out
 	base := pp.C.LE(pp.C.BaseU)
-	m := newMemo(pp.C)
+	m := newMemo(pp.C, r)
 	type kres struct {
 		ran       bool
 		pub, want []byte
@@ -358,17 +357,24 @@ func RunKeyGen(r *verifmc.Run, im *Impl) {
 		}
 	}
 	r.Count("distinct_clamped_scalars", len(distinctClamped))
-	r.Count("reference_evaluations", m.n)
+	m.finish(r)
 	r.Set("alphabet", map[string]interface{}{"k_core": names(pp.ScalarsCore(r.Seed()), 100), "k_bits": len(pp.ScalarsBits()),
-		"k_limbs": len(pp.ScalarsLimbs(r.Thorough())), "k_clamp_space": 1 << 16})
-	r.Rule("distinct scalar byte strings: core U single-bit U limb-structured U all 2^16 (first byte, last byte) values around a fixed middle; " +
-		"each runs the real KeyGen once (and Shared with the base point once) and is compared with X(k, base) of the RFC 7748 big.Int ladder")
-	r.RequireCounter("scalars", 60000)
-	want := int64(2048)
-	if pp.C.Bits == 448 {
-		want = 8192
+		"k_limbs": len(pp.ScalarsLimbs(r.Thorough())), "k_clamp_space": len(kClamp), "k_clamp_space_complete": fullClamp})
+	if !fullClamp {
+		r.NotExhaustive("quick tier, X448: the (first byte, last byte) clamp space is enumerated on the cross (every first byte x 8 last bytes, 9 first bytes x every last byte), all 2^16 in the thorough tier")
 	}
-	r.RequireCounter("distinct_clamped_scalars", want)
+	r.Rule("distinct scalar byte strings: core U single-bit U limb-structured U (first byte, last byte) clamp space around a fixed middle (all 2^16, or the declared cross); " +
+		"each runs the real KeyGen once (and Shared with the base point once) and is compared with X(k, base) of the RFC 7748 big.Int ladder")
+	if fullClamp {
+		r.RequireCounter("scalars", 60000)
+		want := int64(2048) // 32 x 64 distinct clamped (first, last) bytes
+		if pp.C.Bits == 448 {
+			want = 8192 // 64 x 128
+		}
+		r.RequireCounter("distinct_clamped_scalars", want)
+	} else {
+		r.RequireCounter("scalars", 4000)
+	}
 }
 
 // RunAgree: both parties derive the same secret, for every ordered pair of core
@@ -387,7 +393,7 @@ func RunAgree(r *verifmc.Run, im *Impl) {
 		}
 		ks = s.out
 	}
-	m := newMemo(pp.C)
+	m := newMemo(pp.C, r)
 	base := pp.C.LE(pp.C.BaseU)
 	pubs := make([][]byte, len(ks))
 	verifmc.ParallelFor(len(ks), func(i int) {
@@ -474,8 +480,69 @@ func RunAgree(r *verifmc.Run, im *Impl) {
 			}
 		}
 	}
-	r.Count("reference_evaluations", m.n)
+	m.finish(r)
 	r.Set("alphabet", map[string]interface{}{"scalars": names(ks, 100)})
 	r.Rule("unordered pairs {a,b} (a<=b) of the scalar alphabet; each runs KeyGen for both and Shared in both directions on the real code; compared with each other and with X(a, X(b, base)) of the reference")
 	r.RequireCounter("scalar_pairs", 400)
+}
+
+// RunModp: the field package's Modp maps every peer value of the alphabets (after
+// the mask Shared applies) to the canonical representative of its class, and
+// IsZero agrees with "value is 0 mod p".
+func RunModp(r *verifmc.Run, pp *Params, name, backend string, modp func(b []byte), isZero func(b []byte) bool) {
+	CheckBackend(r, backend)
+	var s set
+	for _, l := range [][]Named{pp.PeersCore(r.Seed()), pp.PeersBits(), pp.PeersLimbs(true), pp.PeersNonCanonicalBits()} {
+		for _, n := range l {
+			b := append([]byte{}, n.B...)
+			if pp.C.Bits == 255 {
+				b[31] &= 0x7f
+			}
+			s.add(n.Name, b)
+		}
+	}
+	us := s.out
+	for i, u := range us {
+		id := "modp/u=" + u.Name
+		if !r.Want(id) {
+			continue
+		}
+		v := pp.C.DecodeU(u.B)
+		nc := v.Cmp(pp.C.P) >= 0
+		want := pp.C.LE(v.Mod(v, pp.C.P))
+		got := append([]byte{}, u.B...)
+		var z bool
+		pan, what := verifmc.Try(func() { modp(got); z = isZero(append([]byte{}, u.B...)) })
+		r.Eval(2)
+		r.Distinct(u.B)
+		cl := "canonical"
+		if nc {
+			cl = "noncanonical"
+			r.Count("noncanonical", 1)
+		}
+		rp := map[string]string{"u": hx(u.B), "backend": backend}
+		if pan {
+			r.Violation("C06|"+name+".Modp|panic-"+verifmc.PanicClass(what)+"|"+cl, id, "panic: "+what, rp)
+			continue
+		}
+		if !bytes.Equal(got, want) {
+			r.Violation("C06|"+name+".Modp|not-canonical-representative|"+cl, id,
+				fmt.Sprintf("Modp(%s) = %s, want %s", hx(u.B), hx(got), hx(want)), rp)
+		}
+		if z != xladder.IsZero(want) {
+			r.Violation("C06|"+name+".IsZero|wrong|"+cl, id, fmt.Sprintf("IsZero(%s) = %v", hx(u.B), z), rp)
+		}
+		if z {
+			r.Count("zero_class", 1)
+		}
+		if i%(len(us)/4+1) == 0 {
+			r.Sample(map[string]interface{}{"case": id, "u": hx(u.B), "modp": hx(got)})
+		}
+	}
+	r.Rule("distinct peer byte strings of core U single-bit U limb-structured (thorough alphabet) U non-canonical single-bit offsets, masked as Shared masks them; Modp and IsZero run once each; oracle: big.Int value mod p")
+	if pp.C.Bits == 448 {
+		r.NotExhaustive("X448 non-canonical range p..2^448-1 has 2^224+1 values; its two ends, all single-bit offsets and the limb-structured members are enumerated")
+	}
+	r.RequireCounter("noncanonical", 19)
+	r.RequireCounter("zero_class", 2)
 }
